@@ -6,7 +6,7 @@ From Coq Require Extraction.
 From Coq Require Import ExtrOcamlBasic.
 From Coq Require Import ZArith NArith.
 From AJ Require Import Model.Base Model.FloatModel Model.Value Model.Utf Model.NumParse
-  Model.JsonParse Model.JsonSer Model.MsgPack Model.Stream Model.Convert Model.Compare Model.Tree Model.Chain Model.Pool Model.Collection Model.MsgPackTypes.
+  Model.JsonParse Model.JsonSer Model.MsgPack Model.Stream Model.Convert Model.Compare Model.Tree Model.Chain Model.Pool Model.Collection Model.MsgPackTypes Model.StrBuild.
 Extraction Language OCaml.
 Extraction "model.ml"
   N.div_eucl Z.div_eucl Z.of_N Z.to_N N.of_nat N.to_nat Z.opp N.mul N.add Z.mul Z.add Z.sub
@@ -20,5 +20,6 @@ Extraction "model.ml"
   init_world step live get doc_of to_jv ids invalidates_handles set_on_unbound chain_get chain_set add_typed nest_typed doc_move proxy_assign get_or_add_level get_level
   ps0 pstep alloc_from_last max_pools count sp_add sp_deref sp_refs
   a_init astep elements
+  sb_init sb_step n_content
   copy_array_1d copy_array_2d copy_string
   mp_binary_raw mp_extension_raw mp_binary_of_raw mp_extension_of_raw.
